@@ -11,6 +11,32 @@ ENGINES = {
 
 # id -> (engine, technique, level text, level note, design ref)
 CHECKS = {
+ "C12": ("e3", "exhaustive enumeration of pod multisets x plans x batches through the real PatchPodBatchLabel / IsBatchReady on a fake store, applied twice (idempotence), plus reachable release histories; count / target / relabel / idempotence oracles",
+         "Every pod set of up to 4 (quick) / 5 (thorough) pods over {new/old/unknown revision} x {CloneSet, ReplicaSet owner} x {live, terminating} x 12 pre-existing label shapes (current / foreign rollout-id; batch-id absent, in range, \"0\", \"-1\", \"99\", \"x\") x 17/22 plans (ints, percents, decreasing, malformed) x replicas x every current batch x {no filter, unordered, ordered} plus batch-by-batch reachable histories: labels only on live new-revision pods, count(id,i) <= max(before, increment_i), already-labelled pods untouched, second pass writes nothing, no panic, readiness does not count pods that do not belong.",
+         "Trusted: fake client, the check's own BatchContext derivation (cross-checked against the real CalculateBatchContext on every (plan, replicas, batch) before enumerating).", "DESIGN.md §4 C12"),
+ "C13": ("e3", "exhaustive enumeration of HTTPRoute shapes x step histories (weight / match steps, then Finalise twice) through the real gateway provider on a fake store; request-model oracle for generated canary rules; frame and restore oracles",
+         "Every route built from a 12(quick)/19(thorough)-letter rule alphabet (1-3 rules: stable only, stable+foreign with/without user weights, foreign, same-name non-Service / other-group / other-namespace backends, backend-less redirect, 0-2 own matches, filters) x every step sequence up to length 2 (quick) / 3 (thorough) over weights and every ordering of path/header/query match lists, followed by Finalise: exact split, other backends untouched, generated canary rules accept only requests that satisfy one of the user's matches (finite request model), unrelated rules byte-identical, every user rule back after Finalise. Exhaustive in that domain.",
+         "Trusted: the request model (paths/headers/queries/methods mentioned in the case plus one fresh value each), CRD-defaulted object shapes, the controller-runtime fake client.", "DESIGN.md §4 C13"),
+ "C14": ("e3", "exhaustive enumeration of stable Ingress shapes x class scripts x step histories through the real ingress provider (real Lua scripts) on a fake store; history-independence (relational) oracle",
+         "Every stable Ingress from a 9-rule alphabet (rules without http, Resource backends, stable/other Services, hosts) x annotation shapes x {nginx, aliyun-alb, higress, mse} x every step sequence up to length 3 (4 thorough) of the class's step alphabet (weights, header exact/regex, cookie, query and requestHeaderModifier for mse), then Finalise twice: canary paths == re-targeted stable-Service paths, annotations after history+step == after the step alone, stable and bystander Ingress byte-identical, Finalise deletes the canary Ingress, no panic.",
+         "Trusted: controller-runtime fake client (no API validation); a Lua run cut by the VM's real-time 1 s deadline under machine load is dropped and reported (exhaustive:false), never judged.", "DESIGN.md §4 C14"),
+ "C15": ("e3", "exhaustive enumeration of unstructured objects x scripts (built-in Istio + a grammar of well-behaved scripts) x strategy histories through the real custom provider; statelessness / exact-restore / fixed-point oracles",
+         "Istio VirtualService/DestinationRule worlds (13-rule route alphabet, http/tcp/tls, label/annotation shapes, 1-2 refs incl. a missing one) and generic worlds (36 nested spec shapes incl. empty collections, null, 2^53+1; 6x5x4 generated scripts) x all strategy sequences up to length 3 then Finalise twice: object after history+step == after the step alone, spec/labels/annotations restored exactly, snapshot annotation gone, single stable destination split exactly (100-w, w), other hosts untouched, EnsureRoutes reaches a fixed point within 3 calls and a further call writes nothing.",
+         "Trusted: fake client; empty == absent for labels/annotations; rules with their own match are observed, not judged (the script documents skipping them).", "DESIGN.md §4 C15, C07-O3"),
+ "C16": ("e3", "exhaustive enumeration of all programs of a bounded Lua grammar + token/character soups + a hostile corpus, each executed by the real RunLuaScript/Encode in watchdogged worker processes; exhaustive walk of the capability surface reachable from _G; exhaustive bounded value-bridge round trip",
+         "264k (quick) / 5.9M (thorough) grammar programs, 18k / 416k lexical soups, 371 hostile scripts: each returns within 3x the VM deadline with a table or an error, never a panic or worker crash; every function reachable from _G / metatables / environments is on a reviewed allow-list, file/process/env capabilities are probed functionally against canary files; every JSON-like value up to depth 2 (depth 3 over a reduced alphabet) survives obj -> Lua -> Encode modulo the two documented losses; VM state does not leak between calls.",
+         "Real clock (the deadline is what is under test): verdicts 'late' are re-executed alone before being believed; the four known deadline findings are listed in known-findings.json.", "DESIGN.md §4 C16"),
+ "C01": ("clustermc", "explicit-state BFS over the real Rollout + BatchRelease reconcilers composed with a CloneSet reference model; monitor after every API write",
+         "All interleavings of real reconciles, workload-controller progress, clock ticks and approvals for the scenarios of the plan, plus one (quick) / two (thorough) user deviations (scale up/down, plan edits int<->percent and raised, step jumps, pause/resume) injected once per abstract control state: after every workload write of the BatchRelease controller the exposure allowed by the update knob is within the current step's plan (+1% slack) and never moves back; every batchPartition the Rollout writes is covered by its current step.",
+         "Trusted: API-server shim, CloneSet reference model (Kruise partition semantics, percent rounded up); linearizable reads; other workload kinds not yet in the quick tier.", "DESIGN.md §4 C01"),
+ "C02": ("clustermc", "explicit-state BFS over the real reconcilers with crash actors (between reconciles and after every write inside a reconcile); transition monitor on every persisted Rollout status write",
+         "Every persisted change of the step cursor is judged: Upgrade->TrafficRouting only with a current, observed, Ready BatchRelease authorised for that step; Paused->Ready by the controller only after the duration or on a 100% last step; index changes only from StepReady or after a user request; no forward move in a reconcile that started with spec.strategy.paused. Interleavings unbounded; <=1 user deviation and <=1 crash (any write index) per path in quick.",
+         "Same trusted base as C01.", "DESIGN.md §4 C02"),
+ "C09": ("clustermc", "explicit-state BFS over the real reconcilers with every class of user-patchable nextStepIndex (<0, 0, in range, len+1, MaxInt32) injected once per control state; panic monitor around every Reconcile and event handler",
+         "No panic escapes any Reconcile or event handler on any explored path (recovered, top repository frame as signature).", "Stage 1 (spec enumeration through the validating webhook) not yet built; same trusted base as C01.", "DESIGN.md §4 C09"),
+ "C11": ("clustermc", "explicit-state BFS over the real reconcilers; monitor on every BatchRelease status write against the pods in the store at that instant, and on every settled state",
+         "Ready is reported only when the pods in the store satisfy the batch (updated >= planned, ready within threshold, >=1 ready); currentBatch never exceeds batchPartition; Completed only after the control annotation is gone (and all pods updated+ready under WaitResume); after a degrade / scale / plan edit no settled state keeps Ready while the workload no longer satisfies it.",
+         "Same trusted base as C01.", "DESIGN.md §4 C11"),
  "C20": ("e3", "exhaustive bounded-domain enumeration of objects through the real ConvertTo/ConvertFrom with a round-trip (relational) oracle",
          "Every v1alpha1 Rollout/BatchRelease and every v1alpha1-expressible canary v1beta1 object of a finite product domain (all optional blocks nil/empty/present, 0-2 steps over a step alphabet, every provider, style annotations incl. garbage, status cursors) is converted by the real code; no panic/error, and the normalised round trip is the identity. Exhaustive within the stated domain, nothing sampled.",
          "Trusted: the hand-written 'same meaning' normaliser (absent == empty block, weight-only step == replicas w%, style by annotation) and the hand-encoded schema admissibility.", "DESIGN.md §4 C20"),
